@@ -170,8 +170,15 @@ def build_tess(fs, sites, max_distance=75):
 
 
 # ---------------------------------------------------------------- skeleton image
-def build_skeleton(fs, data, mirror_y=False, reduce_amount=False, rescale=None, offset=None):
-    sk = fs.skeleton.Skeleton(io.BytesIO(data), mirror_y=mirror_y)
+def build_skeleton(fs, data, mirror_y=False, reduce_amount=False, rescale=None, offset=None, keep=None):
+    """keep: a dict owned by the caller's slot; when it already holds a parser object for this input the
+    lattice is built again by the SAME Skeleton object (a user re-running the parse cell of a notebook)."""
+    if keep is not None and keep.get("obj") is not None:
+        sk = keep["obj"]
+    else:
+        sk = fs.skeleton.Skeleton(io.BytesIO(data), mirror_y=mirror_y)
+        if keep is not None:
+            keep["obj"] = sk
     kw = {}
     if reduce_amount:
         kw["reduce_amount"] = True
